@@ -235,6 +235,9 @@ def run(ctx: Ctx) -> Outcome:
         return cs
     if quick:
         cases = emit(3, False, 1, '{"x1"}') + [c for c in emit(2, True, 1, '{"x1"}') if not all(p["ann"] for p in c["sig"])]
+        # several surplus positionals behind *args: their positions run past the indices of the parameters declared after it
+        np_ = lambda sig: sum(1 for p in sig if p["kind"] in ("po", "pk"))       # noqa: E731
+        cases += [c for c in emit(3, False, 3, '{"x1"}') if any(p["kind"] == "va" for p in c["sig"]) and c["npos"] > np_(c["sig"]) + 1]
         big = []
     else:
         cases = emit(3, True, 2, '{"x1", "x2"}')
